@@ -690,6 +690,34 @@ func (c *Ctx) accessPathD(v ssa.Value, fr *Frame, d int) string {
 				if len(sts) == 1 {
 					return c.accessPathD(sts[0].Val, fr, d+1)
 				}
+				// a composite literal of a small struct: name it by its field values
+				if st, ok := a.Type().Underlying().(*types.Pointer).Elem().Underlying().(*types.Struct); ok && len(sts) == 0 && st.NumFields() <= 4 && a.Referrers() != nil {
+					vals := map[int]string{}
+					lit := true
+					for _, rr := range *a.Referrers() {
+						switch u := rr.(type) {
+						case *ssa.FieldAddr:
+							fs := storesTo(u)
+							if len(fs) != 1 {
+								lit = false
+							} else {
+								vals[u.Field] = c.accessPathD(fs[0].Val, fr, d+1)
+							}
+						case *ssa.UnOp, *ssa.DebugRef:
+						default:
+							lit = false
+						}
+					}
+					if lit && len(vals) > 0 {
+						var ss []string
+						for i := 0; i < st.NumFields(); i++ {
+							if v, ok := vals[i]; ok {
+								ss = append(ss, st.Field(i).Name()+"="+v)
+							}
+						}
+						return "lit{" + strings.Join(ss, ",") + "}"
+					}
+				}
 				return "alloc:" + a.Comment
 			}
 			return c.accessPathD(x.X, fr, d+1)
